@@ -109,6 +109,10 @@ def make_items(tier, seed):
     L = 5 if tier == "thorough" else 4
     for pre in range(11):
         items.append({"ob": "remove_identities", "first": pre, "len": L})
+    # gates that are not their own inverse (S, T, P, CP) and non-classical self-inverse ones (H, Z, CZ),
+    # the same applied-gate object repeated: judged on exact amplitudes
+    for pre in range(10):
+        items.append({"ob": "remove_identities", "pool": "phase", "first": pre, "len": 4 if tier == "thorough" else 3})
     nqf, lf = (5, 4) if tier == "thorough" else (4, 3)
     for l in range(1, lf + 1):
         for wl in itertools.permutations(range(nqf), l):
@@ -386,6 +390,14 @@ def _check_item(spec):
         # repeated objects, distinct objects of the same gate, the same gate on permuted wires
         pool = [(gates.X(), [0]), (gates.X(), [1]), (gates.CX(), [0, 1]), (gates.CX(), [1, 2]), (gates.CCX(), [0, 1, 2]), (gates.Barrier(), []), (gates.X(), [0]), (gates.CX(), [1, 0]), (gates.CCX(), [0, 2, 1]), (gates.CCX(), [1, 0, 2]), (gates.CX(), [0, 1])]
         applied = [(g, w, None) for g, w in pool]  # the very same tuple objects are re-used, as the compiler's uncompute does
+        phase = spec.get("pool") == "phase"
+        if phase:
+            import math
+
+            nq = 2
+            xs = xs[:2]
+            applied = [(gates.S(), [0], None), (gates.T(), [1], None), (gates.P(), [0], math.pi / 4), (gates.CP(), [0, 1], math.pi / 2), (gates.H(), [0], None), (gates.Z(), [1], None), (gates.CZ(), [0, 1], None), (gates.Barrier(), [], None), (gates.X(), [0], None), (gates.CX(), [0, 1], None)]
+            pool = [(g, w) for g, w, _ in applied]
         n = 0
         bad = []
         for L in range(1, spec["len"] + 1):
@@ -401,10 +413,41 @@ def _check_item(spec):
                 except Exception as e:
                     bad.append(("remove-identities-raises", "%s: %s" % ([pool[i][0].name + str(pool[i][1]) for i in seq], type(e).__name__)))
                     continue
-                l = boolq.simcirc(qc.gates, xs)
-                r = boolq.simcirc(before, xs)
-                if st.check(s, z3.Or(*[z3.Xor(a, b) for a, b in zip(l, r)])) == "sat":
+                if phase:
+                    if [id(t) for t in qc.gates] == [id(t) for t in before]:
+                        continue  # nothing removed
+                    try:
+                        q, info = qamp.equal_unitaries_query(qc.gates, before, nq, xs)
+                    except qamp.Unsupported as e:
+                        res.update(status="inconclusive", note=str(e))
+                        return st.into(res)
+                    differs = st.check(s, q) == "sat"
+                else:
+                    l = boolq.simcirc(qc.gates, xs)
+                    r = boolq.simcirc(before, xs)
+                    differs = st.check(s, z3.Or(*[z3.Xor(a, b) for a, b in zip(l, r)])) == "sat"
+                if differs:
                     bad.append(("remove-identities-wrong", "%s -> %s changes the action" % ([pool[i][0].name + str(pool[i][1]) for i in seq], [(g.name, w) for g, w, p in qc.gates])))
+        # circuits built through the public API only: a circuit appended onto itself shares its applied gates
+        if spec["first"] == 0:
+            import math
+
+            for build in ("s", "t", "cp", "x"):
+                qc = QCircuitEnhanced(2)
+                {"s": lambda: qc.s(0), "t": lambda: qc.t(1), "cp": lambda: qc.cp(math.pi / 4, 0, 1), "x": lambda: qc.x(0)}[build]()
+                qc += qc
+                before = list(qc.gates)
+                n += 1
+                try:
+                    qc.remove_identities()
+                    q, info = qamp.equal_unitaries_query(qc.gates, before, 2, [z3.Bool("x0"), z3.Bool("x1")])
+                    if st.check(s, q) == "sat":
+                        bad.append(("remove-identities-wrong", "%s gate, circuit += itself, remove_identities: %s -> %s changes the action" % (build, [(g.name, w) for g, w, p in before], [(g.name, w) for g, w, p in qc.gates])))
+                except qamp.Unsupported as e:
+                    res.update(status="inconclusive", note=str(e))
+                    return st.into(res)
+                except Exception as e:
+                    bad.append(("remove-identities-raises", "%s += itself: %s" % (build, type(e).__name__)))
         res["circuits"] = n
         kinds = {}
         for k, w in bad:
